@@ -2,14 +2,14 @@ import Juniper.Proofs.StreamDen
 /-!
 # Every caller's-goroutine combinator of `stream.go` denotes its list function, faults included (C07, C08)
 
-One lemma per combinator: `SDen m cost s L t → SDen (C m) (cost ∘ inner) st (C_spec L t).1 (C_spec L t).2`.
+One lemma per combinator: `SDen soft m cost s L t → SDen soft (C m) (cost ∘ inner) st (C_spec L t).1 (C_spec L t).2`.
 The spec functions say what a failure does to the output: everything determined by the items before
 the failure is delivered, then the failure itself.
 -/
 namespace Juniper.Proofs.StreamDen
 open Juniper.Model.Stream Juniper.Spec Juniper.Gen.Comb
 universe u v w x
-variable {σ : Type u} {σ' : Type w} {α β : Type v} {γ : Type x}
+variable {σ : Type u} {σ' : Type w} {α β : Type v} {γ : Type x} {soft : Err → Bool}
 
 theorem afterS_append (m : SM σ α) (a b : List Bool) (s : σ) : afterS m (a ++ b) s = afterS m b (afterS m a s) := by
   induction a generalizing s with
@@ -74,7 +74,7 @@ theorem sended_wrapper {m : SM σ α} {m' : SM σ' γ} {cost : σ → Nat} (proj
 
 /-- an ended machine whose cost no longer moves denotes the empty sequence -/
 theorem sden_of_ended {m : SM σ α} {cost : σ → Nat} {s : σ} (he : SEnded m s)
-    (hc : ∀ cs, cost (afterS m cs s) = cost s) : SDen m cost s [] (.end_ (cost s)) := by
+    (hc : ∀ cs, cost (afterS m cs s) = cost s) : SDen soft m cost s [] (.end_ (cost s)) := by
   obtain ⟨s', hs, he'⟩ := he.live
   have h1 : cost s' = cost s := by have := hc [true]; simpa [afterS, hs] using this
   have hc' : ∀ cs, cost (afterS m cs s') = cost s' := by
@@ -82,22 +82,23 @@ theorem sden_of_ended {m : SM σ α} {cost : σ → Nat} {s : σ} (he : SEnded m
     have := hc (true :: cs)
     simp only [afterS, hs] at this
     rw [this, h1]
-  have := SDen.done (cost := cost) he.ctxOk hs he' hc'
+  have := SDen.done (soft := soft) (cost := cost) he.ctxOk hs he' hc'
   rwa [h1] at this
 
 /-! ## the scripted source -/
 
-/-- items of a fault script up to its first fatal failure; transient failures cost nothing -/
-def scriptItems (p : Nat) : List (Ev α) → List (α × Nat)
+/-- items of a fault script up to its first hard failure. `er = true`: transient failures cost
+nothing (they are erased); `er = false`: the view of a consumer that gives up at the first failure. -/
+def scriptItems (er : Bool) (p : Nat) : List (Ev α) → List (α × Nat)
   | [] => []
-  | .item a :: r => (a, p + 1) :: scriptItems (p + 1) r
-  | .transient _ :: r => scriptItems p r
+  | .item a :: r => (a, p + 1) :: scriptItems er (p + 1) r
+  | .transient _ :: r => if er then scriptItems er p r else []
   | .fatal _ :: _ => []
 
-def scriptTerm (p : Nat) : List (Ev α) → Term
+def scriptTerm (er : Bool) (p : Nat) : List (Ev α) → Term
   | [] => .end_ p
-  | .item _ :: r => scriptTerm (p + 1) r
-  | .transient _ :: r => scriptTerm p r
+  | .item _ :: r => scriptTerm er (p + 1) r
+  | .transient n :: r => if er then scriptTerm er p r else .fail (.transient n)
   | .fatal n :: _ => .fail (.fatal n)
 
 /-- erase the transient failures of a script -/
@@ -106,12 +107,14 @@ def eraseT : List (Ev α) → List (Ev α)
   | .transient _ :: r => eraseT r
   | e :: r => e :: eraseT r
 
-theorem scriptItems_eraseT (p : Nat) (sc : List (Ev α)) : scriptItems p (eraseT sc) = scriptItems p sc := by
+theorem scriptItems_eraseT (er : Bool) (p : Nat) (sc : List (Ev α)) :
+    scriptItems er p (eraseT sc) = scriptItems true p sc := by
   induction sc generalizing p with
   | nil => rfl
   | cons e r ih => cases e <;> simp [eraseT, scriptItems, ih]
 
-theorem scriptTerm_eraseT (p : Nat) (sc : List (Ev α)) : scriptTerm p (eraseT sc) = scriptTerm p sc := by
+theorem scriptTerm_eraseT (er : Bool) (p : Nat) (sc : List (Ev α)) :
+    scriptTerm er p (eraseT sc) = scriptTerm true p sc := by
   induction sc generalizing p with
   | nil => rfl
   | cons e r ih => cases e <;> simp [eraseT, scriptTerm, ih]
@@ -138,10 +141,11 @@ theorem src_pulled_const (c p a : Nat) (cs : List Bool) :
     · simpa [afterS, src, srcStep] using ih c a
     · simpa [afterS, src, srcStep] using ih (c + 1) a
 
-/-- A scripted source (not yet closed) denotes the items of its script up to the first fatal
-failure; the `i`-th item costs `i` pulls. -/
-theorem src_sden (sc : List (Ev α)) (c p a : Nat) :
-    SDen src (fun s : Src α => s.pulled) ⟨sc, c, p, 0, a⟩ (scriptItems p sc) (scriptTerm p sc) := by
+/-- A scripted source (not yet closed) denotes the items of its script up to the first hard failure;
+the `i`-th item costs `i` pulls. Transient failures are soft (`er = true`) or hard (`er = false`). -/
+theorem src_sden (er : Bool) (hT : ∀ n, soft (.transient n) = er) (hF : ∀ n, soft (.fatal n) = false)
+    (sc : List (Ev α)) (c p a : Nat) :
+    SDen soft src (fun s : Src α => s.pulled) ⟨sc, c, p, 0, a⟩ (scriptItems er p sc) (scriptTerm er p sc) := by
   induction sc generalizing c p with
   | nil =>
     exact .done (cost := fun s : Src α => s.pulled) (s' := (⟨[], c + 1, p, 0, a⟩ : Src α)) (src_ctxOk _ _ _ _) (by simp [src, srcStep]) (src_sended _ _ _) (src_pulled_const _ _ _)
@@ -150,10 +154,15 @@ theorem src_sden (sc : List (Ev α)) (c p a : Nat) :
     | item x =>
       exact .item (s' := (⟨r, c + 1, p + 1, 0, a⟩ : Src α)) (src_ctxOk _ _ _ _) (by simp [src, srcStep]) (ih _ _)
     | transient n =>
-      exact .soft (e := .transient n) (s' := (⟨r, c + 1, p, 0, a⟩ : Src α)) (src_ctxOk _ _ _ _) (by simp [src, srcStep]) rfl (ih _ _)
+      cases er with
+      | true =>
+        simp only [scriptItems, scriptTerm, if_true]
+        exact .soft (e := .transient n) (s' := (⟨r, c + 1, p, 0, a⟩ : Src α)) (src_ctxOk _ _ _ _) (by simp [src, srcStep]) (hT n) (ih _ _)
+      | false =>
+        simp only [scriptItems, scriptTerm]
+        exact .fail (e := .transient n) (s' := (⟨r, c + 1, p, 0, a⟩ : Src α)) (src_ctxOk _ _ _ _) (by simp [src, srcStep]) (hT n)
     | fatal n =>
-      exact .fail (e := .fatal n) (s' := (⟨.fatal n :: r, c + 1, p, 0, a⟩ : Src α)) (src_ctxOk _ _ _ _) (by simp [src, srcStep]) rfl
-
+      exact .fail (e := .fatal n) (s' := (⟨.fatal n :: r, c + 1, p, 0, a⟩ : Src α)) (src_ctxOk _ _ _ _) (by simp [src, srcStep]) (hF n)
 
 /-! ## Map, Filter -/
 
@@ -180,9 +189,9 @@ theorem map_sended (f : α → Except Err β) {m : SM σ α} {cost : σ → Nat}
     rcases hy : m.step t.inner c with ⟨r, u⟩
     cases r <;> simp [map, hy] <;> split <;> rfl) (t := ⟨s⟩) trivial he hc
 
-theorem map_sden (f : α → Except Err β) (hf : ∀ a e, f a = .error e → e.soft = false)
-    {m : SM σ α} {cost : σ → Nat} {s : σ} {L : List (α × Nat)} {t : Term} (h : SDen m cost s L t) :
-    SDen (map f m) (fun st => cost st.inner) ⟨s⟩ (mapS f L t).1 (mapS f L t).2 := by
+theorem map_sden (f : α → Except Err β) (hf : ∀ a e, f a = .error e → soft e = false)
+    {m : SM σ α} {cost : σ → Nat} {s : σ} {L : List (α × Nat)} {t : Term} (h : SDen soft m cost s L t) :
+    SDen soft (map f m) (fun st => cost st.inner) ⟨s⟩ (mapS f L t).1 (mapS f L t).2 := by
   induction h with
   | @skip s s' L t hc hs _ ih => exact .skip (s' := ⟨s'⟩) (map_ctxOk f hc) (by simp [map, hs]) ih
   | @soft s s' e L t hc hs he _ ih => exact .soft (e := e) (s' := ⟨s'⟩) (map_ctxOk f hc) (by simp [map, hs]) he ih
@@ -222,9 +231,9 @@ theorem filter_sended (keep : α → Except Err Bool) {m : SM σ α} {cost : σ 
     cases r <;> simp [filter, hy]
     split <;> rfl) (t := ⟨s⟩) trivial he hc
 
-theorem filter_sden (keep : α → Except Err Bool) (hf : ∀ a e, keep a = .error e → e.soft = false)
-    {m : SM σ α} {cost : σ → Nat} {s : σ} {L : List (α × Nat)} {t : Term} (h : SDen m cost s L t) :
-    SDen (filter keep m) (fun st => cost st.inner) ⟨s⟩ (filterS keep L t).1 (filterS keep L t).2 := by
+theorem filter_sden (keep : α → Except Err Bool) (hf : ∀ a e, keep a = .error e → soft e = false)
+    {m : SM σ α} {cost : σ → Nat} {s : σ} {L : List (α × Nat)} {t : Term} (h : SDen soft m cost s L t) :
+    SDen soft (filter keep m) (fun st => cost st.inner) ⟨s⟩ (filterS keep L t).1 (filterS keep L t).2 := by
   induction h with
   | @skip s s' L t hc hs _ ih => exact .skip (s' := ⟨s'⟩) (filter_ctxOk keep hc) (by simp [filter, hs]) ih
   | @soft s s' e L t hc hs he _ ih => exact .soft (e := e) (s' := ⟨s'⟩) (filter_ctxOk keep hc) (by simp [filter, hs]) he ih
@@ -272,8 +281,8 @@ theorem chunk_sended (size : Int) {m : SM σ α} {cost : σ → Nat} {s : σ} (h
       simp [chunk, this, hq, stChunkFlush]) (t := ⟨s, []⟩) rfl he hc
 
 theorem chunk_sden (n : Nat) {m : SM σ α} {cost : σ → Nat} {s : σ} {L : List (α × Nat)} {t : Term}
-    (h : SDen m cost s L t) (pend : List α) :
-    SDen (chunk (n : Int) m) (fun st => cost st.inner) ⟨s, pend⟩ (chunkGoS n pend L t) t := by
+    (h : SDen soft m cost s L t) (pend : List α) :
+    SDen soft (chunk (n : Int) m) (fun st => cost st.inner) ⟨s, pend⟩ (chunkGoS n pend L t) t := by
   induction h generalizing pend with
   | @skip s s' L t hc hs _ ih =>
     exact .skip (s' := (⟨s', pend⟩ : ChunkSt σ α)) (chunk_ctxOk _ hc) (by simp [chunk, hs]) (ih pend)
@@ -297,7 +306,7 @@ theorem chunk_sden (n : Nat) {m : SM σ α} {cost : σ → Nat} {s : σ} {L : Li
     by_cases hp : pend.length > 0
     · rw [if_pos hp]
       have hne : pend ≠ [] := by intro h; simp [h] at hp
-      have hd := sden_of_ended (cost := fun st : ChunkSt σ α => cost st.inner) hw.1 hw.2
+      have hd := sden_of_ended (soft := soft) (cost := fun st : ChunkSt σ α => cost st.inner) hw.1 hw.2
       exact .item (a := pend) (s' := (⟨s', []⟩ : ChunkSt σ α)) (chunk_ctxOk _ hc)
         (by simp [chunk, hs, stChunkFlush, hne]) hd
     · rw [if_neg hp]
@@ -330,8 +339,8 @@ theorem compact_sended (eq : α → α → Bool) {m : SM σ α} {cost : σ → N
       simp [compact, this]) (t := ⟨s, f, p⟩) trivial he hc
 
 theorem compact_sden (eq : α → α → Bool) {m : SM σ α} {cost : σ → Nat} {s : σ} {L : List (α × Nat)} {t : Term}
-    (h : SDen m cost s L t) (P : Option (α × Nat)) :
-    SDen (compact eq m) (fun st => cost st.inner) ⟨s, P.isNone, P.map Prod.fst⟩
+    (h : SDen soft m cost s L t) (P : Option (α × Nat)) :
+    SDen soft (compact eq m) (fun st => cost st.inner) ⟨s, P.isNone, P.map Prod.fst⟩
       (Seq.compactGo (fun p q => eq p.1 q.1) P L) t := by
   induction h generalizing P with
   | @skip s s' L t hc hs _ ih =>
@@ -388,7 +397,7 @@ theorem first_ctxOk {m : SM σ α} {st : FirstSt σ} (h : CtxOk m st.inner) : Ct
     · right; simp [first, hx, h]
 
 theorem first_zero {m : SM σ α} {cost : σ → Nat} (s : σ) (x : Int) (hx : x ≤ 0) :
-    SDen (first m) (fun st => cost st.inner) ⟨s, x⟩ [] (.end_ (cost s)) := by
+    SDen soft (first m) (fun st => cost st.inner) ⟨s, x⟩ [] (.end_ (cost s)) := by
   have hfix : ∀ c, (first m).step ⟨s, x⟩ c = (.end_, ⟨s, x⟩) := by intro c; simp [first, stFirstDone, hx]
   have he := sended_fixed hfix
   have hc : ∀ cs, (fun st : FirstSt σ => cost st.inner) (afterS (first m) cs ⟨s, x⟩) = cost s := by
@@ -398,11 +407,11 @@ theorem first_zero {m : SM σ α} {cost : σ → Nat} (s : σ) (x : Int) (hx : x
       | nil => rfl
       | cons c cs ih => simp only [afterS, hfix]; exact ih
     rw [this]
-  exact sden_of_ended (cost := fun st : FirstSt σ => cost st.inner) he hc
+  exact sden_of_ended (soft := soft) (cost := fun st : FirstSt σ => cost st.inner) he hc
 
 theorem first_sden {m : SM σ α} {cost : σ → Nat} {s : σ} {L : List (α × Nat)} {t : Term}
-    (h : SDen m cost s L t) (x : Int) :
-    SDen (first m) (fun st => cost st.inner) ⟨s, x⟩ (L.take x.toNat) (firstTermS (cost s) x.toNat L t) := by
+    (h : SDen soft m cost s L t) (x : Int) :
+    SDen soft (first m) (fun st => cost st.inner) ⟨s, x⟩ (L.take x.toNat) (firstTermS (cost s) x.toNat L t) := by
   induction h generalizing x with
   | @skip s s' L t hc hs _ ih =>
     by_cases hx : x ≤ 0
@@ -484,9 +493,9 @@ theorem while_ctxOk (f : α → Except Err Bool) {m : SM σ α} {st : WhileSt σ
       · right; simp [while_, hd, hp, h]
     · right; simp [while_, hd, hp]
 
-theorem while_sden (f : α → Except Err Bool) (hf : ∀ a e, f a = .error e → e.soft = false)
-    {m : SM σ α} {cost : σ → Nat} {s : σ} {L : List (α × Nat)} {t : Term} (h : SDen m cost s L t) :
-    SDen (while_ f m) (fun st => cost st.inner) ⟨s, none, false⟩ (whileS f L t).1 (whileS f L t).2 := by
+theorem while_sden (f : α → Except Err Bool) (hf : ∀ a e, f a = .error e → soft e = false)
+    {m : SM σ α} {cost : σ → Nat} {s : σ} {L : List (α × Nat)} {t : Term} (h : SDen soft m cost s L t) :
+    SDen soft (while_ f m) (fun st => cost st.inner) ⟨s, none, false⟩ (whileS f L t).1 (whileS f L t).2 := by
   induction h with
   | @skip s s' L t hc hs _ ih =>
     exact .skip (s' := (⟨s', none, false⟩ : WhileSt σ α)) (while_ctxOk f hc)
@@ -551,8 +560,8 @@ theorem flattenSlices_ctxOk {m : SM σ (List α)} {st : FlattenSlicesSt σ α} (
     · right; simp only at h; simp [flattenSlices, h]
 
 theorem flattenSlices_buffer {m : SM σ (List α)} {cost : σ → Nat} {s : σ} (buf : List α) {L : List (α × Nat)} {t : Term}
-    (hc : CtxOk m s) (h : SDen (flattenSlices m) (fun st => cost st.inner) ⟨s, []⟩ L t) :
-    SDen (flattenSlices m) (fun st => cost st.inner) ⟨s, buf⟩ (buf.map (fun a => (a, cost s)) ++ L) t := by
+    (hc : CtxOk m s) (h : SDen soft (flattenSlices m) (fun st => cost st.inner) ⟨s, []⟩ L t) :
+    SDen soft (flattenSlices m) (fun st => cost st.inner) ⟨s, buf⟩ (buf.map (fun a => (a, cost s)) ++ L) t := by
   induction buf with
   | nil => exact h
   | cons a r ih =>
@@ -560,8 +569,8 @@ theorem flattenSlices_buffer {m : SM σ (List α)} {cost : σ → Nat} {s : σ} 
       (by simp [flattenSlices]) ih
 
 theorem flattenSlices_sden {m : SM σ (List α)} {cost : σ → Nat} {s : σ} {L : List (List α × Nat)} {t : Term}
-    (h : SDen m cost s L t) :
-    SDen (flattenSlices m) (fun st => cost st.inner) ⟨s, []⟩
+    (h : SDen soft m cost s L t) :
+    SDen soft (flattenSlices m) (fun st => cost st.inner) ⟨s, []⟩
       (L.flatMap fun p => p.1.map fun a => (a, p.2)) t := by
   induction h with
   | @skip s s' L t hc hs _ ih =>
@@ -606,7 +615,7 @@ theorem peek_ctxOk {m : SM σ α} {p : PeekSt σ α} (h : CtxOk m p.inner) : Ctx
     · right; simp only at h; simp [withPeek, peekNext, stPeekNextHas, h]
 
 theorem peek_sden {m : SM σ α} {cost : σ → Nat} {s : σ} {L : List (α × Nat)} {t : Term}
-    (h : SDen m cost s L t) : SDen (withPeek m) (fun st => cost st.inner) ⟨s, none⟩ L t := by
+    (h : SDen soft m cost s L t) : SDen soft (withPeek m) (fun st => cost st.inner) ⟨s, none⟩ L t := by
   induction h with
   | @skip s s' L t hc hs _ ih =>
     exact .skip (s' := (⟨s', none⟩ : PeekSt σ α)) (peek_ctxOk hc) (by simp [withPeek, peekNext, stPeekNextHas, hs]) ih
@@ -631,18 +640,18 @@ theorem peek_sden {m : SM σ α} {cost : σ → Nat} {s : σ} {L : List (α × N
 
 /-- with an item buffered, it comes first, whatever the context, at no further cost -/
 theorem peek_sden_has {m : SM σ α} {cost : σ → Nat} {s : σ} {L : List (α × Nat)} {t : Term} (a : α)
-    (h : SDen m cost s L t) : SDen (withPeek m) (fun st => cost st.inner) ⟨s, some a⟩ ((a, cost s) :: L) t :=
+    (h : SDen soft m cost s L t) : SDen soft (withPeek m) (fun st => cost st.inner) ⟨s, some a⟩ ((a, cost s) :: L) t :=
   .item (a := a) (s' := (⟨s, none⟩ : PeekSt σ α)) (peek_ctxOk (p := ⟨s, some a⟩) h.ctxOk)
     (by simp [withPeek, peekNext, stPeekNextHas, stPeekNextClearsHas]) (peek_sden h)
 
 /-- `Peek` under a live context never changes what the stream denotes; it answers the first item,
 the end, a soft failure (nothing lost), or the hard failure the stream denotes. -/
 theorem peekPeek_sden {m : SM σ α} {cost : σ → Nat} {s : σ} {L : List (α × Nat)} {t : Term}
-    (h : SDen m cost s L t) :
-    (∃ e, (peekPeek m ⟨s, none⟩ true).1 = .err e ∧ e.soft = false ∧ L = [] ∧ t = .fail e) ∨
+    (h : SDen soft m cost s L t) :
+    (∃ e, (peekPeek m ⟨s, none⟩ true).1 = .err e ∧ soft e = false ∧ L = [] ∧ t = .fail e) ∨
     ((peekPeek m ⟨s, none⟩ true).1 = .end_ ∧ L = [] ∧ ∃ e, t = .end_ e) ∨
-    (SDen (withPeek m) (fun st => cost st.inner) (peekPeek m ⟨s, none⟩ true).2 L t ∧
-      ((peekPeek m ⟨s, none⟩ true).1 = .skip ∨ (∃ e, (peekPeek m ⟨s, none⟩ true).1 = .err e ∧ e.soft = true) ∨
+    (SDen soft (withPeek m) (fun st => cost st.inner) (peekPeek m ⟨s, none⟩ true).2 L t ∧
+      ((peekPeek m ⟨s, none⟩ true).1 = .skip ∨ (∃ e, (peekPeek m ⟨s, none⟩ true).1 = .err e ∧ soft e = true) ∨
         ∃ a c L', L = (a, c) :: L' ∧ (peekPeek m ⟨s, none⟩ true).1 = .item a)) := by
   cases h with
   | @skip _ s' _ _ hc hs h' =>
@@ -695,10 +704,10 @@ def flattenS (D : τ → List α × Term) : List (τ × Nat) → Term → List (
     (innerOut (D x).2 ((D x).1.map (fun a => (a, k))) (flattenS D Lo t).1, innerTerm (D x).2 (flattenS D Lo t).2)
 
 theorem flatten_inner {mo : SM σ τ} {mi : SM τ α} {co : σ → Nat} {ci : τ → Nat} {so : σ} {x : τ}
-    {Li : List (α × Nat)} {ti : Term} (hi : SDen mi ci x Li ti) (fin : List τ)
+    {Li : List (α × Nat)} {ti : Term} (hi : SDen soft mi ci x Li ti) (fin : List τ)
     {rest : List (α × Nat)} {t : Term}
-    (hr : ∀ fin', SDen (flatten mo mi) (fun st => co st.outer) ⟨so, none, fin'⟩ rest t) :
-    SDen (flatten mo mi) (fun st => co st.outer) ⟨so, some x, fin⟩
+    (hr : ∀ fin', SDen soft (flatten mo mi) (fun st => co st.outer) ⟨so, none, fin'⟩ rest t) :
+    SDen soft (flatten mo mi) (fun st => co st.outer) ⟨so, some x, fin⟩
       (innerOut ti (Li.map (fun p => (p.1, co so))) rest) (innerTerm ti t) := by
   induction hi with
   | @skip x x' Li ti hc hs _ ih =>
@@ -721,10 +730,10 @@ theorem flatten_inner {mo : SM σ τ} {mi : SM τ α} {co : σ → Nat} {ci : τ
 
 /-- `Flatten`: every inner stream `x` yielded by the outer one denotes `D x`. -/
 theorem flatten_sden {mo : SM σ τ} {mi : SM τ α} {co : σ → Nat} (D : τ → List α × Term) {so : σ}
-    {Lo : List (τ × Nat)} {t : Term} (ho : SDen mo co so Lo t)
-    (hD : ∀ p ∈ Lo, ∃ (ci : τ → Nat) (Li : List (α × Nat)), SDen mi ci p.1 Li (D p.1).2 ∧ Li.map Prod.fst = (D p.1).1)
+    {Lo : List (τ × Nat)} {t : Term} (ho : SDen soft mo co so Lo t)
+    (hD : ∀ p ∈ Lo, ∃ (ci : τ → Nat) (Li : List (α × Nat)), SDen soft mi ci p.1 Li (D p.1).2 ∧ Li.map Prod.fst = (D p.1).1)
     (fin : List τ) :
-    SDen (flatten mo mi) (fun st => co st.outer) ⟨so, none, fin⟩ (flattenS D Lo t).1 (flattenS D Lo t).2 := by
+    SDen soft (flatten mo mi) (fun st => co st.outer) ⟨so, none, fin⟩ (flattenS D Lo t).1 (flattenS D Lo t).2 := by
   induction ho generalizing fin with
   | @skip s s' L t hc hs _ ih =>
     exact .skip (s' := (⟨s', none, fin⟩ : FlattenSt σ τ)) (flatten_ctxOk_none hc) (by simp [flatten, hs]) (ih hD fin)
@@ -773,10 +782,10 @@ def joinS (D : σ → List α × Term) : List σ → List (α × Nat) × Term
   | [] => ([], .end_ 0)
   | s :: r => (innerOut (D s).2 ((D s).1.map (fun a => (a, 0))) (joinS D r).1, innerTerm (D s).2 (joinS D r).2)
 
-theorem join_head {m : SM σ α} {ci : σ → Nat} {s : σ} {Li : List (α × Nat)} {ti : Term} (hi : SDen m ci s Li ti)
+theorem join_head {m : SM σ α} {ci : σ → Nat} {s : σ} {Li : List (α × Nat)} {ti : Term} (hi : SDen soft m ci s Li ti)
     (r fin : List σ) {rest : List (α × Nat)} {t : Term}
-    (hr : ∀ fin', SDen (join m) (fun _ => 0) ⟨r, fin'⟩ rest t) :
-    SDen (join m) (fun _ => 0) ⟨s :: r, fin⟩ (innerOut ti (Li.map (fun p => (p.1, 0))) rest) (innerTerm ti t) := by
+    (hr : ∀ fin', SDen soft (join m) (fun _ => 0) ⟨r, fin'⟩ rest t) :
+    SDen soft (join m) (fun _ => 0) ⟨s :: r, fin⟩ (innerOut ti (Li.map (fun p => (p.1, 0))) rest) (innerTerm ti t) := by
   induction hi with
   | @skip x x' Li ti hc hs _ ih =>
     exact .skip (s' := (⟨x' :: r, fin⟩ : JoinSt σ)) (join_ctxOk_cons hc) (by simp [join, hs]) ih
@@ -798,12 +807,12 @@ theorem join_head {m : SM σ α} {ci : σ → Nat} {s : σ} {Li : List (α × Na
 
 /-- `Join(streams...)`: the concatenation; a failing stream ends it. -/
 theorem join_sden {m : SM σ α} (D : σ → List α × Term) (ss : List σ)
-    (hD : ∀ s ∈ ss, ∃ (ci : σ → Nat) (Li : List (α × Nat)), SDen m ci s Li (D s).2 ∧ Li.map Prod.fst = (D s).1)
-    (fin : List σ) : SDen (join m) (fun _ => 0) ⟨ss, fin⟩ (joinS D ss).1 (joinS D ss).2 := by
+    (hD : ∀ s ∈ ss, ∃ (ci : σ → Nat) (Li : List (α × Nat)), SDen soft m ci s Li (D s).2 ∧ Li.map Prod.fst = (D s).1)
+    (fin : List σ) : SDen soft (join m) (fun _ => 0) ⟨ss, fin⟩ (joinS D ss).1 (joinS D ss).2 := by
   induction ss generalizing fin with
   | nil =>
     have hfix : ∀ c, (join m).step ⟨[], fin⟩ c = (.end_, ⟨[], fin⟩) := join_nil_fixed fin
-    exact sden_of_ended (cost := fun _ => 0) (sended_fixed hfix) (fun _ => rfl)
+    exact sden_of_ended (soft := soft) (cost := fun _ => 0) (sended_fixed hfix) (fun _ => rfl)
   | cons s r ih =>
     obtain ⟨ci, Li, hi, hLi⟩ := hD s (by simp)
     have := join_head hi r fin (fun fin' => ih (fun s hs => hD s (by simp [hs])) fin')
